@@ -1,15 +1,18 @@
 """C05 — shipped rewrite rules preserve semantics wherever they fire."""
-MODULES = ["contracts.c05_rules", "contracts.c05_batchnorm", "contracts.c05_basic", "contracts.c05_casts", "contracts.c09_reshape"]
+MODULES = ["contracts.c05_rules", "contracts.c05_batchnorm", "contracts.c05_basic", "contracts.c05_casts", "contracts.c09_reshape", "contracts.c06_matcher:match_constant"]
 HEAD = "import sys\nsys.path.insert(0, '/verif')\nfrom replay_lib.opt_native import main\n"
 EVIDENCE_EXTRA = {"rules_not_under_contract": "all rules except _fuse_relus_clips (4), _min_max_to_clip (4), _no_op (pattern constants), _remove_expand_before_binary_op, _basic_rules.TransposeTranspose, _fuse_batchnorm (Conv, Gemm); rules.fusion and _fuse_hardswish replace subgraphs by compound operators whose only definition is a function body or an ORT kernel"}
 
 
 def INCLUDE(name):
-    return name.startswith("C05.")
+    # the literal-matching contract of the matcher decides C05's 'value only approximately equal / broadcast shapes' clause too
+    return name.startswith("C05.") or name.startswith("C06.matcher.match_constant")
 
 
 def replay(ob):
     n = ob["name"]
+    if "C06.matcher.match_constant" in n:
+        return HEAD + "main(['literal_rank', 'add_eps'])\n"
     if "rules.CastCast" in n:
         return HEAD + "main(['cast_cast'])\n"
     if "UnsqueezeUnsqueeze.does_not_fire" in n:
